@@ -73,6 +73,7 @@ func init() {
 			c.guard("SEQ.GEN", s.ruleGenHist)
 			// statements run in source order: what follows a yielding if / switch / loop waits for it
 			c.guard("RW.CLOSE", r.ruleCloseContract)
+			c.guard("RW.TMPL.FORPOST", func() { r.ruleScopeAgree(true, "forpost") })
 			// C01 answers for the supported subset: unlabelled break/continue (labelled forms, goto and fallthrough are C12's)
 			c.keep(func(o Obligation) bool {
 				if o.Rule == "RW.BRANCHCTX" {
@@ -89,6 +90,8 @@ func init() {
 					return strings.HasPrefix(o.Construct, "MoveNext") || o.Construct == "coverage"
 				case "RW.CLOSE": // closing of thunk bodies is C11's
 					return strings.HasPrefix(o.Construct, "combine decision between statements")
+				case "RW.TMPL.FORPOST": // the scope of the post statement is C03's
+					return strings.HasPrefix(o.Construct, "yielding for-post is appended to the body only after")
 				}
 				return true
 			})
@@ -203,6 +206,8 @@ func init() {
 			// "at any statement position": a delegation inside an if/else-if chain or a switch clause is only
 			// reached (and only for the right inputs) if the lowering keeps every branch, clause and statement
 			c.guard("RW.TMPL.IF", r.ruleTmplStmts)
+			// a delegation in for-post position runs after every iteration, also one whose body ended in a yielding switch
+			c.guard("RW.TMPL.FORPOST", func() { r.ruleScopeAgree(true, "forpost") })
 			s := newSeqRT(c)
 			// delegation lowers to a post-less loop: only those runtime shapes matter here
 			c.guard("SEQ.FOR", func() { s.ruleForOnly(func(fc forCase) bool { return fc.postNil }) })
@@ -217,6 +222,10 @@ func init() {
 					return strings.HasPrefix(o.Construct, "order of passes")
 				case "SEQ.GEN": // only: an exhausted delegate stays exhausted; a delegation advances with MoveNext
 					return strings.HasPrefix(o.Construct, "MoveNext") || o.Construct == "coverage"
+				case "RW.TMPL.FORPOST":
+					return strings.HasPrefix(o.Construct, "yielding for-post is appended to the body only after")
+				case "RW.SCOPEAGREE":
+					return false
 				case "RW.DISPATCH", "RW.DEEPVISIT", "SEQ.LAZY":
 					return false
 				case "RW.FIELDCOV":
